@@ -15,7 +15,8 @@ CLAUSES = {'process-calls', 'processor-lifecycle', 'processors-order', 'get_proc
 _W = dict(addproc=8, rmproc=3, process=5, create=1, add=1, remove=0.5, delete=0.5, clear=0.4, enable=1.5, dispatch=1)
 _g = _world.make('C07', TAGS, CLAUSES, [
     dict(n_comp=(1, 2), n_proc=(1, 6), handlers=0.5, w=_W),
-    dict(n_comp=(1, 2), n_proc=(1, 6), handlers=0.5, w=_W),
+    # value-object processors (all instances of a class equal) and a second world in the same process
+    dict(n_comp=(1, 2), n_proc=(2, 6), handlers=0.3, traits=0.8, decoy=0.6, w=_W),
     # processors whose on_add / on_remove / process raises half-way through an operation
     dict(n_comp=(0, 1), n_proc=(2, 6), handlers=0.9, raises=0.9, w={**_W, 'rmproc': 5, 'create': 0.5, 'add': 0.5}),
 ])
